@@ -155,6 +155,32 @@ Definition blank_line (l : list Z) : Prop := strip_cr l = [] \/ forallb is_ws (s
 Definition starts_with_keyword (allowed : list (list Z)) (l : list Z) : Prop :=
   mem_str (to_lower (first_token (strip_cr l))) allowed = true.
 
+Lemma prefixb_same_length : forall a b, length a = length b -> prefixb a b = true -> a = b.
+Proof.
+  induction a as [|x a IH]; intros b Hl Hp; destruct b as [|y b]; try discriminate; [reflexivity|].
+  cbn [prefixb] in Hp. apply andb_true_iff in Hp. destruct Hp as [E Hp]. apply Z.eqb_eq in E. subst y.
+  f_equal. apply IH; [cbn in Hl; lia|exact Hp].
+Qed.
+
+Lemma list_eqb_eq : forall a b, list_eqb a b = true <-> a = b.
+Proof.
+  intros a b. unfold list_eqb. split.
+  - intros H. apply andb_true_iff in H. destruct H as [Hl Hp]. apply Nat.eqb_eq in Hl.
+    apply prefixb_same_length; assumption.
+  - intros E. subst b. rewrite Nat.eqb_refl. cbn [andb]. induction a as [|x a IH]; [reflexivity|].
+    cbn [prefixb]. rewrite Z.eqb_refl. exact IH.
+Qed.
+
+(* "begins with a keyword" is EQUALITY of the lower-cased whole first word with a registered keyword:
+   a proper prefix or an extension of a keyword is not a keyword *)
+Lemma starts_with_keyword_iff : forall allowed l,
+  starts_with_keyword allowed l <-> In (to_lower (first_token (strip_cr l))) allowed.
+Proof.
+  intros allowed l. unfold starts_with_keyword, mem_str. rewrite existsb_exists. split.
+  - intros [k [Hk E]]. apply list_eqb_eq in E. subst k. exact Hk.
+  - intros H. eexists. split; [exact H|apply list_eqb_eq; reflexivity].
+Qed.
+
 Lemma line_ok_spec : forall allowed l, line_ok allowed l = true <-> (blank_line l \/ starts_with_keyword allowed l).
 Proof.
   intros allowed l. unfold line_ok, blank_line, starts_with_keyword.
